@@ -40,6 +40,79 @@ def run(chk, repo):
     bitmap(chk, repo)
     teardown(chk, repo)
     errno_classes(chk, repo)
+    fs_effects(chk, repo)
+
+
+FS_ALLOWED = {
+    ("get_ethertype", "open", "own lock file"),
+    ("run", "tempfile.mkdtemp", "lock area"),
+    ("run", "os.rename", "private directory"),
+    ("run", "shutil.rmtree", "private directory"),
+    ("run", "shutil.rmtree", "lock directory"),
+    ("run", "os.remove", "own lock file"),
+    ("run", "os.remove", "pinned table"),
+    ("run", "os.rmdir", "lock directory"),
+    ("run", "os.makedirs", "pinned table"),     # the bpf directory
+}
+FS_CALLS = {"os.remove", "os.unlink", "os.rename", "os.replace", "os.rmdir",
+            "os.mkdir", "os.makedirs", "os.removedirs", "os.truncate",
+            "shutil.rmtree", "shutil.move", "tempfile.mkdtemp", "os.link",
+            "os.symlink"}
+
+
+def fs_effects(chk, repo):
+    """R23.6 (an effect rule): the election protocol analysed here is a
+    protocol over a handful of file-system operations - create the private
+    directory, rename it into place, create / remove the own lock file,
+    remove the directory, remove the pin.  Every operation of ParallelEtherCat
+    that changes the lock area is one of these, in the method it belongs
+    to; another one (re-creating the directory from a joiner, removing files
+    found by listing it) is a step the protocol's argument does not
+    cover."""
+    chk.doc("R23.6", "file-system effects on the lock area are the "
+                     "protocol's own")
+    ci = repo.cls(C)
+    n = 0
+    for name, f in sorted(ci.methods.items()):
+        if not isinstance(f, FUNC):
+            continue
+        for c in calls_in(f):
+            callee = dotted(c.func) or ""
+            mode = None
+            if callee == "open":
+                mode = str_const(c.args[1]) if len(c.args) > 1 else "r"
+                for k in c.keywords:
+                    if k.arg == "mode":
+                        mode = str_const(k.value)
+                if not mode or not set(mode) & set("wxa+"):
+                    continue
+            elif callee not in FS_CALLS:
+                continue
+            txt = " ".join(unparse(a) for a in c.args) + " " + " ".join(
+                unparse(k.value) for k in c.keywords)
+            if "lockfile" in txt:
+                kind = "own lock file"
+            elif "tmpdir" in txt:
+                kind = "private directory"
+            elif "lockdir" in txt:
+                kind = "lock directory"
+            elif "programs" in txt:
+                kind = "pinned table"
+            elif "/run/lock" in txt:
+                kind = "lock area"
+            else:
+                kind = f"`{txt.strip()[:40]}`"
+            n += 1
+            ok = (name, callee, kind) in FS_ALLOWED
+            chk.ob("R23.6", f"{C}.{name}", f"{callee} on the {kind}", ok, c,
+                   "a step of the election protocol" if ok else
+                   f"`{unparse(c)[:60]}` in {name}(): not one of the "
+                   f"protocol's operations (create / rename the private "
+                   f"directory, create / remove the own lock file, remove "
+                   f"the directory and the pin in run()); what it does to "
+                   f"another participant's files or to the election token "
+                   f"is outside the argument made for the protocol")
+    chk.floor("R23.6", "file-system operations of ParallelEtherCat", n, 8)
 
 
 OS_SUBCLASSES = {"FileNotFoundError", "FileExistsError", "BlockingIOError",
